@@ -130,8 +130,8 @@ def gen_tok_shape(source, chain):
         sid = 2 + k
         stage_exprs.append({"M": ".map(tmk_map(%d, c.cl[%d]))", "F": ".filter(mk_fil(%d, c.cl[%d]))",
                             "X": ".flat_map(tmk_flat(%d, c.cl[%d]))", "O": ".filter_map(tmk_fm(%d, c.cl[%d]))"}[s] % (sid, k))
-    build = "%s.num_threads(c.nt1).chunk_size(c.cs1)%s" % (expr, "".join(stage_exprs))
-    lines.append("    macro_rules! build { () => {{ set_phase(0); let p = %s; let p = if c.trail { p.chunk_size(c.cs2).num_threads(c.nt2) } else { p }; *hdr.borrow_mut() = format!(\"params={} kind={}\", params_str(p.params()), kind_of(&p)); set_phase(1); p }} }" % build)
+    build = "{ let p0 = %s; let p0 = if c.lead_cn { p0.chunk_size(c.cs1).num_threads(c.nt1) } else { p0.num_threads(c.nt1).chunk_size(c.cs1) }; p0%s }" % (expr, "".join(stage_exprs))
+    lines.append("    macro_rules! build { () => {{ set_phase(0); let p = %s; let p = if c.trail { if c.trail_nc { p.num_threads(c.nt2).chunk_size(c.cs2) } else { p.chunk_size(c.cs2).num_threads(c.nt2) } } else { p }; *hdr.borrow_mut() = format!(\"params={} kind={}\", params_str(p.params()), kind_of(&p)); set_phase(1); p }} }" % build)
     lines.append("    match &c.term {")
     lines.append("        Term::Cv => { let p = build!(); let r = p.collect_vec(); r_list(r.iter().map(|x| x.v()).collect()) }")
     lines.append("        Term::Cs => { let p = build!(); let r = p.collect(); r_list(r.iter().map(|x| x.v()).collect()) }")
@@ -195,8 +195,8 @@ def gen_shape(source, chain):
         else:
             stage_exprs.append(".filter_map(mk_fm(%d, c.cl[%d]))" % (sid, k))
             t = "val"
-    build = "%s.num_threads(c.nt1).chunk_size(c.cs1)%s" % (expr, "".join(stage_exprs))
-    lines.append("    macro_rules! build { () => {{ set_phase(0); let p = %s; let pmid = params_str(p.params()); let p = if c.trail { p.chunk_size(c.cs2).num_threads(c.nt2) } else { p }; *hdr.borrow_mut() = format!(\"params={} pmid={} kind={}\", params_str(p.params()), pmid, kind_of(&p)); set_phase(1); p }} }" % build)
+    build = "{ let p0 = %s; let p0 = if c.lead_cn { p0.chunk_size(c.cs1).num_threads(c.nt1) } else { p0.num_threads(c.nt1).chunk_size(c.cs1) }; p0%s }" % (expr, "".join(stage_exprs))
+    lines.append("    macro_rules! build { () => {{ set_phase(0); let p = %s; let pmid = params_str(p.params()); let p = if c.trail { if c.trail_nc { p.num_threads(c.nt2).chunk_size(c.cs2) } else { p.chunk_size(c.cs2).num_threads(c.nt2) } } else { p }; *hdr.borrow_mut() = format!(\"params={} pmid={} kind={}\", params_str(p.params()), pmid, kind_of(&p)); set_phase(1); p }} }" % build)
     rust_t = {"val": "i64", "ref": "&i64", "us": "usize"}[t]
     # old contents for collect_into, in the item type
     if t == "val":
